@@ -573,6 +573,12 @@ pub fn generate(recipe: &Recipe, dir: &Path) -> Result<Generated, String> {
                         }
                     }
                     let _ = done;
+                } else if boundary && bi == 1 && rng.chance(1, 2) {
+                    // a batch small enough to fit whole into the few bytes left before the
+                    // boundary: the place where "padding" and "batch" are told apart by one byte
+                    ts += 1;
+                    let k = rng.pick(&[b"a".to_vec(), vec![]]).clone();
+                    push(&mut wb, &mut ents, k, ts, None)?;
                 } else {
                     for _ in 0..rng.range(1, 4) {
                         ts += 1;
@@ -847,11 +853,13 @@ fn run_case(
     stats.evaluations += 1;
     let dk = if damage.len() > 1 { "sequence" } else { damage[0].kind() };
     *stats.by_kind.entry(dk.to_string()).or_insert(0) += 1;
-    let region = match &damage[0] {
+    let region_for = |d: &Damage| match d {
         Damage::Flip { off, .. } | Damage::Set { off, .. } => region_of(regions, *off),
         Damage::Truncate { len } => region_of(regions, len.saturating_sub(0).min(pristine_bytes.len().saturating_sub(1))),
         _ => "appended",
     };
+    let mut region = region_for(&damage[0]);
+    let mut damage: Vec<Damage> = damage.to_vec();
     if kind == "sst" {
         *stats.by_region.entry(format!("{dk}@{region}")).or_insert(0) += 1;
     }
@@ -861,7 +869,9 @@ fn run_case(
     exec::quiet_panics(false);
     let max_alloc = alloc_cap::max_request();
     stats.max_alloc = stats.max_alloc.max(max_alloc);
-    let alloc_limit = (64usize << 20).max(16 * pristine_bytes.len());
+    // "Unbounded" is judged against the formats' own cap: the readers refuse a record that claims
+    // more than sst::TABLE_FULL_SIZE (1 GiB - 64 MiB) before allocating for it.
+    let alloc_limit = (1usize << 30).max(16 * pristine_bytes.len());
     let tag;
     let mut viol: Option<(String, String)> = None;
     match r {
@@ -874,7 +884,7 @@ fn run_case(
         Ok(Ok(obs)) => {
             if obs == pristine_obs {
                 tag = "identical";
-            } else if (Damage::is_truncation_only(damage) || bytes.len() < pristine_bytes.len())
+            } else if (Damage::is_truncation_only(&damage) || bytes.len() < pristine_bytes.len())
                 && prefix_obs.iter().any(|p| *p == obs)
             {
                 // A shorter file that reads exactly as a record-granular prefix is
@@ -882,6 +892,29 @@ fn run_case(
                 tag = "record-granular-prefix";
             } else {
                 tag = "different";
+                // A sequence: is one of its steps alone enough for exactly this observation?
+                // Then the others were no-ops or harmless, and the case is that step's.
+                if damage.len() > 1 {
+                    for d in damage.clone().iter() {
+                        let mut alone = pristine_bytes.to_vec();
+                        d.apply(&mut alone);
+                        if alone == pristine_bytes {
+                            continue;
+                        }
+                        std::fs::write(work.join(target), &alone).expect("write damaged file");
+                        exec::quiet_panics(true);
+                        let r1 = catch_unwind(AssertUnwindSafe(|| observe(g, kind, work, target, scratch)));
+                        exec::quiet_panics(false);
+                        if let Ok(Ok(o1)) = r1 {
+                            if o1 == obs {
+                                region = region_for(d);
+                                damage = vec![d.clone()];
+                                bytes = alone;
+                                break;
+                            }
+                        }
+                    }
+                }
                 // where do they first differ?
                 let pos = obs.bytes().zip(pristine_obs.bytes()).position(|(a, b)| a != b).unwrap_or(obs.len().min(pristine_obs.len()));
                 let ctx_a: String = obs.chars().skip(pos.saturating_sub(30)).take(90).collect();
